@@ -1,8 +1,16 @@
 #!/bin/bash
-# Runs every seeded change against the check of the property it was written for
-# (and, optionally, extra properties given as arguments). Output: one line per pair.
+# Runs every seeded change against the check of the property it was written for.
+# Rewrites seeded/CAUGHT_BY.tsv: <seeded id> <property> <first violated obligation | MISSED>
 cd /verif
+: > /tmp/caught.tsv
 for d in seeded/*/; do
   id=$(basename $d); prop=${id%-*}
-  /verif/tools/try_mutant.sh $id $prop "$@" 2>&1 | grep "^== "
+  out=$(/verif/tools/try_mutant.sh $id $prop 2>&1)
+  echo "$out" | grep "^== "
+  first=$(echo "$out" | grep -m1 "obligation " | sed 's/^ *obligation \([^ ]*\) .*/\1/')
+  n=$(echo "$out" | grep -m1 "^== " | sed 's/.* \([0-9]*\) violations/\1/')
+  [ -z "$first" ] && first=MISSED
+  printf "%s\t%s\t%s\t%s\n" $id $prop "$first" "$n" >> /tmp/caught.tsv
 done
+cp /tmp/caught.tsv seeded/CAUGHT_BY.tsv; rm -f /tmp/caught.tsv
+grep -c MISSED seeded/CAUGHT_BY.tsv
